@@ -552,6 +552,119 @@ def c11_11(ctx):
     return out
 
 
+def c11_12(ctx):
+    """COVER: on *every* path through validate on which a redeem / witness script is attached, the named pubkeys are tied to a
+    script before the normal exit -- by the per-key membership check against that script, by the membership check against the
+    witness script it wraps (p2sh-p2wsh), or by the single-key hash160 comparison (p2wpkh forms).  A branch that accepts the
+    script's hash and then leaves without looking at the keys lets derivations for keys that are not in the script through"""
+    out = []
+    for spec, exempt in (("psbt:PSBTIn.validate", _no_utxo_exempt), ("psbt:PSBTOut.validate", None)):
+        mod, fn = rl.get(ctx, spec)
+        cfg = cfg_of(fn)
+        heads = set()
+        for attr in ("witness_script", "redeem_script"):
+            good, wrong, other = _membership_sites(fn, attr)
+            for st in good:
+                for lp in cfg.loops.values():
+                    if lp.stmt is st:
+                        heads.add(lp.head)
+                for n in cfg.tests():
+                    if any(n.ast is y for y in ast.walk(st.test)) if isinstance(st, ast.If) else False:
+                        heads.add(n.id)
+
+        def hmatch(node, ex, atoms):
+            t = node.ast
+            if isinstance(t, ast.Compare) and len(t.ops) == 1 and isinstance(t.ops[0], (ast.Eq, ast.NotEq)):
+                l, r = ast.unparse(t.left), ast.unparse(t.comparators[0])
+                if ("named_pub.hash160()" in (l, r)) or ("hash160()" in l + r and "named_pub" in l + r):
+                    return BAD_TRUE if isinstance(t.ops[0], ast.NotEq) else BAD_FALSE
+            return None
+        gs = find_guards(mod, fn, hmatch)
+        # p2wpkh arms look at the key only when exactly one is named: `len(named_pubs) == 1`; zero keys need no tie
+        rets = [n.id for n in cfg.returns()]
+        for attr in ("redeem_script", "witness_script"):
+            removed = {(g.node.id, g.pass_label) for g in gs} | set(_absent_edges(fn, attr))
+            # paths on which no key is named at all are outside the clause
+            for n in cfg.tests():
+                r = rl.rel(n.ast, lambda e: ast.unparse(e) == "len(self.named_pubs)", lambda e: isinstance(e, ast.Constant) and e.value == 1)
+                if r == "==":
+                    removed.add((n.id, False))
+                elif r == "!=":
+                    removed.add((n.id, True))
+            forbid = exempt(fn) if exempt else ()
+            r, p = reach_ps(cfg, [cfg.entry], removed=removed, blocked=frozenset(heads), targets=rets, forbid=forbid)
+            if r is None:
+                raise AnalysisError("%s: state budget exceeded" % spec)
+            if p is None:
+                out.append(ctx.ok(spec, "whenever %s is attached, the named pubkeys are tied to a script (membership / single-key hash) on every path to the normal exit" % attr,
+                                  fn, mod, key="keys-tied:%s" % attr))
+            else:
+                out.append(ctx.bad(spec, "a path reaches the normal exit with self.%s attached and accepted but the named pubkeys never compared with any script: %s" % (
+                    attr, cfg.fmt_path(p)), fn, mod, key="keys-tied:%s" % attr, detail={"path": cfg.fmt_path(p)}))
+    return out
+
+
+def c11_13(ctx):
+    """TYPE of the committing scriptPubKey: an attached witness script is only accepted for a scriptPubKey that is p2wsh, or p2sh
+    (wrapping a p2wsh redeem script) -- comparing its sha256 with `commands[1]` of any two-command script (OP_1 <32 bytes>, a
+    taproot output) is not a commitment to that multisig script"""
+    out = []
+    for spec, exempt in (("psbt:PSBTIn.validate", _no_utxo_exempt), ("psbt:PSBTOut.validate", None)):
+        mod, fn = rl.get(ctx, spec)
+        cfg = cfg_of(fn)
+
+        def match(node, ex, atoms):
+            t = node.ast
+            if isinstance(t, ast.Call) and call_name(t) in ("is_p2wsh", "is_p2sh") and isinstance(t.func, ast.Attribute) and "script_pubkey" in ast.unparse(t.func.value) \
+                    and "redeem" not in ast.unparse(t.func.value):
+                return BAD_FALSE
+            return None
+        gs = find_guards(mod, fn, match)
+        removed = {(g.node.id, g.pass_label) for g in gs} | set(_absent_edges(fn, "witness_script"))
+        rets = [n.id for n in cfg.returns()]
+        forbid = exempt(fn) if exempt else ()
+        r, p = reach_ps(cfg, [cfg.entry], removed=removed, targets=rets, forbid=forbid)
+        if r is None:
+            raise AnalysisError("%s: state budget exceeded" % spec)
+        if p is None:
+            out.append(ctx.ok(spec, "an attached witness script is accepted only after the scriptPubKey was found to be p2wsh or p2sh (%d test(s))" % len(gs), fn, mod, key="ws-needs-p2wsh"))
+        else:
+            out.append(ctx.bad(spec, "a witness script is accepted without the scriptPubKey being p2wsh / p2sh: its sha256 is compared with commands[1] of whatever script is "
+                                     "there, so an output OP_1 <sha256(script)> (taproot, unspendable by the wallet) passes as the wallet's change; path: %s" % cfg.fmt_path(p),
+                               fn, mod, key="ws-needs-p2wsh", detail={"path": cfg.fmt_path(p)}))
+    return out
+
+
+def c11_14(ctx):
+    """AGREEMENT of the two UTXO records: when an input carries both the previous transaction and a witness UTXO, the witness UTXO
+    must be the output the previous transaction has at that index (amount and script) -- the summary takes the input amount from
+    one of them"""
+    spec = "psbt:PSBTIn.validate"
+    mod, fn = rl.get(ctx, spec)
+    cfg = cfg_of(fn)
+
+    def match(node, ex, atoms):
+        t = node.ast
+        if isinstance(t, ast.Compare) and len(t.ops) == 1 and isinstance(t.ops[0], (ast.Eq, ast.NotEq)):
+            l, r = ast.unparse(expand(fn, node.id, t.left, depth=4)), ast.unparse(expand(fn, node.id, t.comparators[0], depth=4))
+            for a, b in ((l, r), (r, l)):
+                if "self.prev_out" in a and "self.prev_tx.tx_outs" in b and "self.prev_tx" not in a:
+                    return BAD_TRUE if isinstance(t.ops[0], ast.NotEq) else BAD_FALSE
+        return None
+    gs = find_guards(mod, fn, match)
+    removed = {(g.node.id, g.pass_label) for g in gs} | set(_absent_edges(fn, "prev_tx")) | set(_absent_edges(fn, "prev_out"))
+    rets = [n.id for n in cfg.returns()]
+    r, p = reach_ps(cfg, [cfg.entry], removed=removed, targets=rets)
+    if r is None:
+        raise AnalysisError("%s: state budget exceeded" % spec)
+    if p is None:
+        return [ctx.ok(spec, "with both UTXO records present, the witness UTXO is compared with prev_tx.tx_outs[prev_index] before the normal exit", gs[0].node.ast if gs else fn, mod,
+                       key="utxo-records-agree")]
+    return [ctx.bad(spec, "an input carrying both a previous transaction and a witness UTXO is accepted without comparing them: the witness UTXO may state any amount "
+                          "(the summary's input total and fee then differ from the real ones); path: %s" % cfg.fmt_path(p), fn, mod, key="utxo-records-agree",
+                    detail={"path": cfg.fmt_path(p)})]
+
+
 OBLIGATIONS = [
     ("C11.10", "MEMO", c11_10),
     ("C11.9", "GUARD relation", c11_9),
@@ -564,5 +677,8 @@ OBLIGATIONS = [
     ("C11.7", "GUARD", c11_7),
     ("C11.8", "GUARD", c11_8),
     ("C11.11", "FORALL membership", c11_11),
+    ("C11.12", "COVER membership", c11_12),
+    ("C11.13", "GUARD type", c11_13),
+    ("C11.14", "GUARD agreement", c11_14),
 ]
 FLOORS = {"C11.1": 4, "C11.2": 5, "C11.5": 2, "C11.6": 4, "C11.7": 2, "C11.8": 5}
